@@ -33,9 +33,60 @@ type Seen struct {
 // reqRec collects the mutator entries of one HTTP request (or of one
 // websocket connection: its operations run in the handshake's context).
 type reqRec struct {
-	mu   sync.Mutex
-	seen []Seen
-	done chan struct{}
+	mu    sync.Mutex
+	seen  []Seen
+	done  chan struct{}
+	gates *gateSet // websocket connections of ws.go: test-released subscription events
+}
+
+func (r *reqRec) gateSet() *gateSet {
+	r.mu.Lock()
+	defer r.mu.Unlock()
+	return r.gates
+}
+
+// gateSet: named one-shot gates. A nil set has every gate open.
+type gateSet struct {
+	mu sync.Mutex
+	ch map[string]chan struct{}
+}
+
+func (g *gateSet) get(tag, name string) chan struct{} {
+	g.mu.Lock()
+	defer g.mu.Unlock()
+	if g.ch == nil {
+		g.ch = map[string]chan struct{}{}
+	}
+	k := tag + "/" + name
+	if g.ch[k] == nil {
+		g.ch[k] = make(chan struct{})
+	}
+	return g.ch[k]
+}
+
+func (g *gateSet) open(tag, name string) {
+	if g == nil {
+		return
+	}
+	ch := g.get(tag, name)
+	select {
+	case <-ch:
+	default:
+		close(ch)
+	}
+}
+
+// wait returns false when ctx ended first.
+func (g *gateSet) wait(ctx context.Context, tag, name string) bool {
+	if g == nil {
+		return true
+	}
+	select {
+	case <-g.get(tag, name):
+		return true
+	case <-ctx.Done():
+		return false
+	}
 }
 
 type recKey struct{}
@@ -104,7 +155,13 @@ func newHandler(ls *liveServer) *handler.Server {
 	srv.AddTransport(transport.GRAPHQL{ResponseHeaders: ls.cfgMaps["GRAPHQL"]})
 	srv.AddTransport(transport.UrlEncodedForm{ResponseHeaders: ls.cfgMaps["FORM"]})
 	srv.AddTransport(transport.MultipartForm{ResponseHeaders: ls.cfgMaps["MULTIPART"]})
-	srv.SetQueryCache(lru.New[*ast.QueryDocument](100))
+	switch ls.cfg { // the query cache is part of the configuration (HasCache in the model)
+	case "map":
+		srv.SetQueryCache(graphql.MapCache[*ast.QueryDocument]{})
+	case "nocache":
+	default:
+		srv.SetQueryCache(lru.New[*ast.QueryDocument](100))
+	}
 	srv.Use(paramLogger{})
 	srv.Use(extension.AutomaticPersistedQuery{Cache: lru.New[string](100)})
 	return srv
